@@ -44,12 +44,7 @@ class Context:
 
     def _set_with_template(self, t):
         self._with_template = t
-        illegal_names = t.reserved_names.intersection(self._data)
-        if illegal_names:
-            raise exceptions.NameConflictError(
-                "Reserved words passed to render(): %s"
-                % ", ".join(illegal_names)
-            )
+        _check_reserved_names(t, self._data)
 
     @property
     def lookup(self):
@@ -782,11 +777,21 @@ def _decorate_inline(context, fn):
     return decorate_render
 
 
+def _check_reserved_names(template, names):
+    illegal_names = template.reserved_names.intersection(names)
+    if illegal_names:
+        raise exceptions.NameConflictError(
+            "Reserved words passed to render(): %s"
+            % ", ".join(sorted(illegal_names))
+        )
+
+
 def _include_file(context, uri, calling_uri, **kwargs):
     """locate the template from the given uri and include it in
     the current output."""
 
     template = _lookup_template(context, uri, calling_uri)
+    _check_reserved_names(template, kwargs)
     callable_, ctx = _populate_self_namespace(
         context._clean_inheritance_tokens(), template
     )
